@@ -140,13 +140,13 @@ func builtinArrayPop(call FunctionCall) Value {
 }
 
 func builtinArrayJoin(call FunctionCall) Value {
+	thisObject := call.thisObject()
+	length := int64(toUint32(thisObject.get(propertyLength)))
 	separator := ","
 	argument := call.Argument(0)
 	if argument.IsDefined() {
 		separator = argument.string()
 	}
-	thisObject := call.thisObject()
-	length := int64(toUint32(thisObject.get(propertyLength)))
 	if length == 0 {
 		return stringValue("")
 	}
